@@ -24,6 +24,11 @@ def run(c):
         trace = c.replay
     else:
         r = c.mc("TrustSigner", "TrustSignerMC.%s.cfg" % c.tier, workers=4 if not c.thorough else 8, timeout=2400)
+        if c.thorough:
+            rb = c.tlc("TrustSigner", "TrustSignerMC.asfound.cfg", workers=1, timeout=600)
+            if "Sound" in rb.inv_violated:
+                c.notes.append("model: a grace expiry that ignores the latest TRC's validity end (code as found "
+                               "before the fix) violates Sound")
         cases = _pki.tlc_json_lines(r.out, "SCN")
         pool = _pki.tlc_json_lines(r.out, "POOL")
         if len(pool) != 1 or len(cases) != r.distinct - 1:
@@ -48,9 +53,9 @@ def run(c):
     elif r.stuck_at is not None:
         c.judge_trace(r, trace)
     if not c.replay:
-        _pki.need(r, "signers", "generated signer")
-        _pki.need(r, "signers_in_grace", "signer generated through the grace period")
-        _pki.need(r, "expired_refused", "expired signer refusing to sign")
+        _pki.need(c, r, "signers", "generated signer")
+        _pki.need(c, r, "signers_in_grace", "signer generated through the grace period")
+        _pki.need(c, r, "expired_refused", "expired signer refusing to sign")
     _pki.drift(c, r)
     ntr, evs, shapes = 0, 0, set()
     for t in vlib.split_traces(trace):
@@ -75,6 +80,4 @@ def run(c):
     c.sample_trace(trace, nevents=6)
     c.assumptions += [
         "wall-clock now lies strictly between abstract times 0 and 1 (days); no boundary is placed there",
-        "weak reading of the grace clause: the expiry of a grace signer may ignore the latest TRC's own "
-        "validity end (it only matters if the grace period outlasts the TRC that announces it; drift note)",
         "ties between chains with equal expiry are unspecified"]
